@@ -400,7 +400,7 @@ func (n *Tree[V]) findNode(path string, captures []string, matcher LookupMatcher
 			}
 		}
 
-		return nil, 0, captures, n.backtrackingEnabled
+		return nil, 0, captures, n.catchAllChild.backtrackingEnabled
 	}
 
 	return nil, 0, captures, true
